@@ -12,19 +12,39 @@ PROP = {
     "id": "C06",
     "level": "proof",
     "technique": ("Lean 4 proof of the wrapper decision logic (range-erase case analysis over iterator kinds, hint rule by lower/upper-bound "
-                  "lemmas on sorted lists, multiset equality by counting) + differential state-machine correspondence against libstdc++"),
-    "level_text": ("PARTIAL. Kernel-checked for all inputs: (1) unordered erase(first,last) — for every container size / key layout and every pair "
-                   "of iterators, traversal iterators and lookup results alike, a call that does not throw removes exactly the elements the "
-                   "iterators enumerate from first to last, and the documented legal ranges (empty, single element incl. erase(it,next(it)) on a "
-                   "lookup result, whole key, whole container) are accepted; (2) hinted insertion of set/multiset/map/multimap — for every sorted "
-                   "sequence, hint and key the element lands at the valid position closest to the hint (at the hint when it is valid), order of "
-                   "equivalent keys untouched; with unique keys flag/position/contents do not depend on the hint; (3) unordered_multimap == is "
-                   "true iff the stored pairs are equal as multisets (value-less keys ignored); (4) at / try_emplace / insert_or_assign flags "
-                   "and effects of map and unordered_map. NOT proved (differential evidence only, because libstdc++ has no formal model): "
-                   "agreement of whole call histories with the libstdc++ containers — checked on every run by driving momo::stdish::X and std::X "
-                   "with the same random call sequences (all shared operations, 8 wrappers, bucketed and open-addressing variants, six hash "
-                   "families, five key distributions, std::allocator and stateful allocators with all 8 propagation-trait combinations) and "
-                   "comparing every return value and the full contents; the Lean model replays the wrapper decisions on the same sequences."),
+                  "lemmas on sorted lists, multiset equality by counting); whole-history REFINEMENT proof: the wrapper model (every stdish operation as written, "
+                  "over the native containers' contracts) against a hand-written formal specification of the std containers, by an abstraction relation "
+                  "preserved by every call and induction over call lists; + differential state-machine correspondence against libstdc++ "
+                  "(momo vs libstdc++, wrapper model vs momo, specification vs libstdc++)"),
+    "level_text": ("PARTIAL. Kernel-checked for all inputs: "
+                   "(A) WHOLE CALL HISTORIES, inside the model: lean/Momo/Model/StdSpec.lean is a formal specification of std::set / multiset / map / "
+                   "multimap (sorted sequence, stable for equivalent keys, hinted insertion as close as possible to the hint), std::vector (list) and "
+                   "std::unordered_set / unordered_map / unordered_multimap (finite (multi)map, every observation independent of the iteration order) "
+                   "written from the C++ standard; "
+                   "lean/Momo/Model/StdWrapOps.lean models every operation of the corresponding momo::stdish wrappers as written in the headers over the "
+                   "native containers' contracts (TreeSet/TreeMap = sorted list of C02, Array = list of C05, HashSet/HashMap = finite map of C01 and "
+                   "HashMultiMap = key -> value array with possibly value-less keys of C08, both in an ARBITRARY traversal order that an oracle "
+                   "re-arranges after every call). C06_history_ordered / C06_history_vector / C06_history_unordered_unique / "
+                   "C06_history_unordered_multimap (all eight container kinds): for every legal call list (legal = the documented preconditions as a decidable predicate: iterator "
+                   "arguments denote current positions / present elements, first not behind last, unordered range erase limited to the documented "
+                   "empty / single-element / whole-key / whole-container ranges) the wrapper model and the specification give the same observations call by call - "
+                   "inserted flags, positions incl. hinted insertion and stable order of equivalent keys, counts, bounds, equal_range, positions returned "
+                   "by erase, node-handle contents (plain and hinted, refused or accepted), out_of_range from at(), try_emplace / insert_or_assign / "
+                   "operator[], merge, swap, copy / move assignment and construction, == != < <= > >=, full traversals (hence the same contents); "
+                   "C06_history_vs_spec restates C06_full with the specification in the place of the std container. "
+                   "(B) the isolated decision-logic theorems: unordered erase(first,last) removes exactly what the iterators enumerate (all three unordered "
+                   "wrappers, every pair of traversal / lookup iterators), hint_closest, hint_unique, node handles, equal_range, at / try_emplace / "
+                   "insert_or_assign, == of unordered_multimap (multiset of pairs, value-less keys ignored) and of unordered_set/map. "
+                   "STILL DIFFERENTIAL (T2, not a theorem, because libstdc++ has no formal model): (1) 'libstdc++ implements StdSpec' - on every run "
+                   "harness/c06_hist.cpp drives libstdc++ with random legal histories over the whole call alphabet and the specification must give the "
+                   "same answers line by line (suites hist_*_spec); (2) 'momo::stdish is what StdWrapOps says' - the same histories on momo against the "
+                   "wrapper model (suites hist_*_wrap); (3) momo against libstdc++ directly (c06_ordered / c06_unordered / c06_alloc / c06_hist). "
+                   "LEFT OUT of the history theorems (hence PARTIAL): allocator propagation and unequal allocators (histories run with equal allocators; "
+                   "differential only, c06_alloc); bucket interface, reserve / rehash / load factors, capacity / shrink_to_fit / data, reverse iterators, "
+                   "max_size, key_comp / hash_function, heterogeneous lookup, constructors from ranges, self-assignment / self-merge, C++20 ranges / "
+                   "three-way comparison are not calls of the model. One line of the "
+                   "specification follows libstdc++ rather than the standard's wording: unordered insert(hint, node) destroys a refused node "
+                   "(libstdc++ implements it as _M_reinsert_node(std::move(nh)).position, momo does the same)."),
     "level_note": ("Trusted: Lean kernel + 3 standard axioms, harness (g++ 12, libstdc++ as the reference), line protocol. The native containers "
                    "behind the wrappers are represented by their abstract specification in the theorems (sorted list / association list / key->"
                    "value-array table); their own correctness is C01, C02, C08. Documented deviations are outside the claim and encoded in the "
@@ -47,6 +67,13 @@ PROP = {
         "Momo.StdWrap.C06_map_insert_or_assign",
         "Momo.StdWrap.C06_umap_try_emplace",
         "Momo.StdWrap.C06_umap_insert_or_assign",
+        "Momo.StdW.C06_history_ordered",
+        "Momo.StdW.C06_step_ordered",
+        "Momo.StdW.C06_history_vector",
+        "Momo.StdW.C06_history_unordered_unique",
+        "Momo.StdW.C06_history_unordered_multimap",
+        "Momo.StdW.C06_history_vs_spec",
+        "Momo.StdW.C06_native_contract_is_C02_reference",
     ],
     "harnesses": [
         _h("c06_ord", "c06_ordered.cpp", FAST + ["-DVF_ALLOC=0"]),
@@ -60,6 +87,9 @@ PROP = {
         _h("c06_alloc_mset_map", "c06_alloc.cpp", FAST + ["-DVF_KINDS=12"]),
         _h("c06_alloc_mmap_uset", "c06_alloc.cpp", FAST + ["-DVF_KINDS=48"]),
         _h("c06_alloc_umap_ummap", "c06_alloc.cpp", FAST + ["-DVF_KINDS=192"]),
+        _h("c06_hist_ord_vec", "c06_hist.cpp", FAST + ["-DVF_PART=1"]),
+        _h("c06_hist_uno", "c06_hist.cpp", FAST + ["-DVF_PART=2", "-DVF_OPEN=0"]),
+        _h("c06_hist_uno_open", "c06_hist.cpp", FAST + ["-DVF_PART=2", "-DVF_OPEN=1"]),
     ],
     "rule": ("Differential runs: two containers + one node handle per side, 350-450 calls per run (thorough 700-900), drawn from insert / emplace / "
              "hinted insert and emplace (hints at lower/upper bound, their neighbours, begin, end, random) / try_emplace / insert_or_assign / "
@@ -72,12 +102,21 @@ PROP = {
              "iterators before the call, refused ranges must leave the container unchanged. After every call the answer is compared with "
              "libstdc++'s answer and with the model's, contents are compared (every call while small, every 8-16 calls when large). Allocator "
              "matrix: 8 wrappers x 8 trait combinations x copy/move construction (with/without allocator) / copy/move assignment / swap, contents "
-             "and allocator identity against libstdc++, ledger of every block. distinct_nontrivial = number of distinct (suite, run, key "
+             "and allocator identity against libstdc++, ledger of every block. c06_hist (history theorem tie): 10-12 runs (thorough 40-48) of 260 "
+             "(500) random LEGAL calls per container kind (set, multiset, map, multimap, vector, unordered_set, unordered_map, unordered_multimap, "
+             "the last three also as _open variants) over the complete call alphabet of StdSpec.lean - incl. range / initializer-list insert and assignment, hinted and "
+             "plain node-handle insertion (nodes usually extracted from the other container), erase_if, merge in both directions, copy / move "
+             "construction, size / empty, unordered erase(first,last) in the shapes empty / single by traversal / single through a lookup result / "
+             "whole key by traversal / whole key by equal_range / whole, a == b after erase_if on one side and erase(key) on the other - every call line is written twice: with momo's answer for the wrapper model and with libstdc++'s answer for the specification; "
+             "momo and libstdc++ are also compared directly. distinct_nontrivial = number of distinct (suite, run, key "
              "distribution, range, hash family) runs plus allocator-matrix rounds."),
     "runtime_only": ["ledger of the stateful allocator: every block returned through an equal allocator with its size, none left (C03/C14 piggyback)",
-                     "agreement with libstdc++ on whole histories (differential, not a theorem)",
+                     "agreement of libstdc++ with the specification StdSpec.lean on whole histories (differential: suites hist_*_spec), and of momo with libstdc++ "
+                     "directly; inside the model the wrapper refines the specification by theorem (C06_history_*)",
                      "F15 pattern executed in a forked child; its crash is reported as KNOWN-FINDING only for exactly that pattern"],
     "not_modelled": ["the native containers (HashSet/HashMap/HashMultiMap, TreeSet/TreeMap, Array) — abstract specification in the model; see C01, C02, C05, C08",
+                     "in the history theorems: allocators (equal allocators assumed), bucket interface, reserve / rehash / load factors, capacity, "
+                     "reverse iterators, heterogeneous lookup, self-assignment",
                      "iterator invalidation, proxy reference types, bucket interface, max_load_factor/rehash/reserve, constructors from ranges "
                      "(exercised only through the allocator matrix), heterogeneous lookup (IsValidKeyArg), C++20 ranges / three-way comparison "
                      "(harness is compiled as C++17)",
